@@ -148,6 +148,8 @@ class Model:
             i = m.counts.get(name, 0)
             m.counts[name] = i + 1
             sc = script.get(name)
+            if sc and script.get("__cyclic__"):
+                return sc[i % len(sc)]          # the script repeats for as long as the case runs
             return sc[i] if sc and i < len(sc) else None
 
         self._step(m, p, now, durations, script_action, choose, nested=False)
